@@ -25,6 +25,7 @@ const (
 	evSrvAccept    = "srv-accept"    // Output, Attempt, Note = mode
 	evSrvChunk     = "srv-chunk"     // Output, Attempt, ChunkID, Tag, Stamps (decoded), Chunk (index into the server log)
 	evSrvAck       = "srv-ack"       // Output, Attempt, ChunkID, Note = ok|wrong
+	evSrvAckTry    = "srv-ack-try"   // Output, Attempt, ChunkID: logged before the ACK is written
 	evSrvPing      = "srv-ping"      // Output, Attempt
 	evSrvClose     = "srv-close"     // Output, Attempt, Note = eof|reset|refuse|error
 	evDisk         = "disk"          // Output, Pipeline, ChunkID, Stamps (one per queue file after a stop)
@@ -126,7 +127,7 @@ func (ev e2eEvent) String() string {
 		fmt.Fprintf(&sb, " out=%s att=%d %s", ev.Output, ev.Attempt, ev.Note)
 	case evSrvChunk:
 		fmt.Fprintf(&sb, " out=%s att=%d id=%s tag=%s stamps=%v", ev.Output, ev.Attempt, ev.ChunkID, ev.Tag, ev.Stamps)
-	case evSrvAck:
+	case evSrvAck, evSrvAckTry:
 		fmt.Fprintf(&sb, " out=%s att=%d id=%s %s", ev.Output, ev.Attempt, ev.ChunkID, ev.Note)
 	case evDisk:
 		fmt.Fprintf(&sb, " out=%s pipeline=%s id=%s stamps=%v", ev.Output, ev.Pipeline, ev.ChunkID, ev.Stamps)
